@@ -35,7 +35,7 @@ R = None  # current recorder
 
 
 class Rec(object):
-    __slots__ = ("log", "style", "aio", "mode", "closed", "native", "loop_errors", "flags_outer", "flags_watch", "iters", "errs")
+    __slots__ = ("log", "style", "aio", "mode", "closed", "native", "loop_errors", "flags_outer", "flags_watch", "const_flags", "iters", "errs")
 
     def __init__(self, style, aio, mode):
         self.log = []
@@ -47,6 +47,7 @@ class Rec(object):
         self.loop_errors = []
         self.flags_outer = []
         self.flags_watch = []
+        self.const_flags = []
         self.iters = 0
         self.errs = []
 
@@ -61,6 +62,7 @@ class _NullRec(object):
         self.log = []
         self.native = set()
         self.loop_errors = []
+        self.const_flags = []
         self.errs = []
 
 
@@ -90,11 +92,16 @@ def _route(r, tc):
 
 
 def _const(r, lid):
-    # constants are plain ConstFutures, or (proxy styles) an @async_proxy function returning a ConstFuture
+    """a constant leaf: a plain ConstFuture, or an @async_proxy function returning a ConstFuture, or a non-generator
+    @asynq() function / method returning the value (the second branch of convert_asynq_to_async)"""
     st = r.style
-    if st == 2 or (st == 3 and lid % 2):
-        return k_px.asynq(("k", lid))
-    return ConstFuture(("k", lid))
+    if st == 3:
+        st = lid % 3
+    if st == 0:
+        return ConstFuture(("k", lid))
+    if st == 1:
+        return OBJ.c_m.asynq(("k", lid))
+    return k_px.asynq(("k", lid))
 
 
 # --------------------------------------------------------------------------------------------------
@@ -347,6 +354,13 @@ class Obj(object):
     def tx_m(self, tc):
         assert self is OBJ
         return (yield from _gtask(tc))
+
+    @_asynq_deco()
+    def c_m(self, v):
+        # not a generator: runs inside `with AsyncioMode()` under .asyncio(), inside an AsyncTask on the scheduler
+        assert self is OBJ
+        R.const_flags.append(is_asyncio_mode())
+        return v
 
 
 OBJ = Obj()
